@@ -160,6 +160,9 @@ package engine
 //@     assert [C03.closedfirst] s.ReadyState() == "closed" && $evt == "close" && len($args) == 2 && $args[0] == iface(old(reason))
 //@   callsite (*socket).clearTransport#1
 //@     assert [C03.closedbeforeclear] s.ReadyState() == "closed"
+// OnClose is reached from listeners and callbacks that run inside a hand-off (see the C18 findings on flush): it must not
+// wait for the hand-off lock itself
+//@   ensures [C18.closenolock] calls((*sync.Mutex).Lock) == 0
 
 //@ func (*socket).clearTransport()
 //@   props C03, C08
